@@ -535,3 +535,199 @@ func extraC10ConvertConfig(c *Ctx) {
 	c.Expect(rule, "functions of package convert analysed", nF, 60)
 	c.Expect(rule, "sink uses of config.json values", nS, 5)
 }
+
+func init() {
+	prev := registry["C10"].Run
+	registry["C10"].Run = func(c *Ctx) { prev(c); extraC10ConstIndex(c) }
+}
+
+// extraC10ConstIndex is C10-R13: constant indexes and slice bounds in the code that runs outside gin's
+// recovery (the goroutines package server starts) need a length fact.
+func extraC10ConstIndex(c *Ctx) {
+	rule := "C10-R13"
+	c.Rule(rule, "in the functions of package server that run in goroutines the package starts itself (no recovery middleware: a panic ends the server), a list of decoded layers or a value of a fs/ggml type is indexed or sliced with a constant bound only behind a dominating length test of that very expression — a decoder that stops at a bare EOF (a file cut exactly between two fields) hands the create path an empty layer list, and layers[:1] on it takes the whole server down")
+	sinfo := c.P.Pkgs["server"].TypesInfo
+	units := unrecoveredServerFuncs(c)
+	audited := map[string]string{}
+	n, bad, nOther := 0, 0, 0
+	for _, f := range units {
+		g := c.G(f)
+		seq := map[string]int{}
+		for _, h := range g.Find(func(m ast.Node) bool {
+			switch x := m.(type) {
+			case *ast.IndexExpr:
+				if _, isC := core.ConstInt(sinfo, x.Index); !isC {
+					return false
+				}
+				t := sinfo.TypeOf(x.X)
+				if t == nil {
+					return false
+				}
+				switch t.Underlying().(type) {
+				case *types.Slice:
+					return true
+				case *types.Basic:
+					return isStringType(t)
+				}
+				return false
+			case *ast.SliceExpr:
+				for _, b := range []ast.Expr{x.Low, x.High} {
+					if b != nil {
+						if v, isC := core.ConstInt(sinfo, b); isC && v > 0 {
+							t := sinfo.TypeOf(x.X)
+							if _, isArr := t.Underlying().(*types.Array); isArr {
+								return false
+							}
+							if p, isP := t.Underlying().(*types.Pointer); isP {
+								if _, isArr := p.Elem().Underlying().(*types.Array); isArr {
+									return false
+								}
+							}
+							return true
+						}
+					}
+				}
+			}
+			return false
+		}) {
+			var x ast.Expr
+			need := int64(0)
+			switch e := h.Node.(type) {
+			case *ast.IndexExpr:
+				x = e.X
+				v, _ := core.ConstInt(sinfo, e.Index)
+				need = v + 1
+			case *ast.SliceExpr:
+				x = e.X
+				for _, b := range []ast.Expr{e.Low, e.High} {
+					if b != nil {
+						if v, isC := core.ConstInt(sinfo, b); isC && v > need {
+							need = v
+						}
+					}
+				}
+			}
+			// only values that come out of decoding a model file: slices of layers / ggml values
+			if ts := sinfo.TypeOf(x).String(); !strings.Contains(ts, "layerGGML") && !strings.Contains(ts, "fs/ggml.") {
+				nOther++
+				continue
+			}
+			n++
+			xs := core.ExprString(x)
+			ok := false
+			for _, a := range g.AtomsAt(h.Loc) {
+				be, isB := ast.Unparen(a.Expr).(*ast.BinaryExpr)
+				if !isB {
+					continue
+				}
+				call, isC := ast.Unparen(be.X).(*ast.CallExpr)
+				if !isC || core.CalleeName(sinfo, call) != "builtin.len" || core.ExprString(call.Args[0]) != xs {
+					continue
+				}
+				v, isV := core.ConstInt(sinfo, be.Y)
+				if !isV {
+					continue
+				}
+				op := be.Op
+				if !a.Val {
+					op = negateCmp(op)
+				}
+				if (op == token.GTR && v >= need-1) || (op == token.GEQ && v >= need) || (op == token.EQL && v >= need) || (op == token.NEQ && v == 0 && need == 1) {
+					ok = true
+				}
+			}
+			// strings.Split / SplitN / Fields results and literals are not examined: only local facts count
+			key := f.Key() + " const-bound:" + normCell(xs)
+			seq[key]++
+			if seq[key] > 1 {
+				key += "#" + itoa(seq[key])
+			}
+			if why, isA := audited[key]; isA && !ok {
+				c.OK(rule, key+" (audited)", c.Pos(h.Node), why)
+				continue
+			}
+			if !ok {
+				bad++
+			}
+			c.Check(rule, key, c.Pos(h.Node), ok, "constant bound "+itoa(int(need))+" on "+xs+" without a length fact on the path")
+		}
+	}
+	_ = bad
+	c.Expect(rule, "functions of package server outside the recovery middleware", len(units), 60)
+	c.Expect(rule, "constant-bound index/slice sites examined there (all operand types)", n+nOther, 20)
+	c.Count(rule+" constant-bound sites on decoded layers / ggml values", n)
+	if c.P.LookupField("server", "layerGGML", "GGML") == nil {
+		c.Undecided(rule, "anchor:server.layerGGML", "-", "anchor lost: the type of decoded layers")
+	}
+	if n == 0 {
+		c.OK(rule, "decoded layers are never indexed or sliced with a constant bound", "-", "")
+	}
+}
+
+// unrecoveredServerFuncs: functions of package server reachable from its own go statements (top-level
+// functions with their literals, and go-literals with the literals nested in them).
+func unrecoveredServerFuncs(c *Ctx) []*core.Func {
+	sinfo := c.P.Pkgs["server"].TypesInfo
+	sfns := c.P.FuncsOf("server")
+	byName := map[string]*core.Func{}
+	for _, f := range sfns {
+		if f.Obj != nil {
+			byName[f.Obj.FullName()] = f
+		}
+	}
+	seen := map[string]bool{}
+	var out, work []*core.Func
+	add := func(f *core.Func, withLits bool) {
+		if f == nil || seen[f.Key()] || strings.HasSuffix(c.Pos(f.Body), "_test.go") {
+			return
+		}
+		seen[f.Key()] = true
+		out = append(out, f)
+		work = append(work, f)
+		if withLits {
+			for _, l := range f.Lits() {
+				if !seen[l.Key()] {
+					seen[l.Key()] = true
+					out = append(out, l)
+				}
+			}
+		}
+	}
+	for _, f := range sfns {
+		if strings.HasSuffix(c.Pos(f.Body), "_test.go") {
+			continue
+		}
+		ast.Inspect(f.Body, func(n ast.Node) bool {
+			gs, isGo := n.(*ast.GoStmt)
+			if !isGo {
+				return true
+			}
+			if lit, isLit := ast.Unparen(gs.Call.Fun).(*ast.FuncLit); isLit {
+				for _, l := range f.Lits() {
+					if l.Lit == lit {
+						add(l, false)
+						for _, l2 := range f.Lits() {
+							if l2 != l && l2.Lit.Pos() >= lit.Pos() && l2.Lit.End() <= lit.End() && !seen[l2.Key()] {
+								seen[l2.Key()] = true
+								out = append(out, l2)
+							}
+						}
+					}
+				}
+			} else if fo, ok := core.Callee(sinfo, gs.Call).(*types.Func); ok {
+				add(byName[fo.FullName()], true)
+			}
+			return true
+		})
+	}
+	for len(work) > 0 {
+		f := work[0]
+		work = work[1:]
+		for _, call := range core.Calls(f.Body, true) {
+			if fo, ok := core.Callee(sinfo, call).(*types.Func); ok {
+				add(byName[fo.FullName()], true)
+			}
+		}
+	}
+	return out
+}
